@@ -1085,3 +1085,9 @@ def _from_pat(m, cfg, f, args, t):
 
 PATTERN_PRIMS = [(_re.compile(r'.*TryFrom<\w+> for \w+>::try_from$'), _try_from_pat),
                  (_re.compile(r'.*convert::From<\w+> for \w+>::from$'), _from_pat)]
+
+
+# one spelling for std items (see mir.Program): every primitive is reachable under its std:: name
+from .absint import std_name as _std_name
+for _k in list(P):
+    P.setdefault(_std_name(_k), P[_k])
